@@ -20,6 +20,8 @@ Every function is NORMALISED before its shape is compared, so that equivalent re
     the directly following statement (so introducing or removing helper variables, tuple unpacking of the stored
     registration, renaming locals do not matter);
   - keyword arguments of calls to methods of this class and to the four identity payload classes become positional;
+  - the fixed-metadata comparison may be inline (`json.dumps(..., sort_keys=True) != json.dumps(...)`) or go through the
+    helper `_same_metadata`, whose body is checked (canonical JSON texts equal; TypeError/ValueError -> no match);
   - comparisons are oriented (`a != b` / `b != a`, `a > b` / `b < a`, `not x in y`, `not a == b`), `if A or B: return False`
     is split into one guard per disjunct, independent guards may appear in any order that respects their data
     dependencies, `if x is None: <log> else: BODY`, `if x is not None: BODY` and `if x is None: <log>; return` + BODY
@@ -371,6 +373,30 @@ def translate(path=None) -> str:
         if TRANSACTION + "['name']" in text and "name" not in fields_seen:
             raise TranslatorError(f"should_sign: {where} reads transaction['name'] before its presence is checked")
 
+    def check_same_metadata():
+        """`_same_metadata(a, b)`: equality of the canonical JSON texts, total (anything unserialisable matches nothing)"""
+        f = fns.get("_same_metadata")
+        if f is None:
+            raise TranslatorError("should_sign calls self._same_metadata, which is not defined in the class")
+        deco = [ast.unparse(d) for d in f.decorator_list]
+        params = [a.arg for a in f.args.args]
+        if deco == ["staticmethod"]:
+            params = ["self"] + params
+        elif deco:
+            raise TranslatorError(f"_same_metadata has unexpected decorators {deco}")
+        if len(params) != 3:
+            raise TranslatorError(f"_same_metadata takes {params}")
+        fb = copy.deepcopy(f)
+        if deco:
+            fb.args.args.insert(0, ast.arg(arg="self"))
+        txt_ = _text(normalise(fb, ["self", "a", "b"], sigs))
+        want_ = ("try:\n    return json.dumps(a, sort_keys=True) == json.dumps(b, sort_keys=True)\n"
+                 "except (TypeError, ValueError):\n    return False")
+        alt_ = want_.replace("json.dumps(a, sort_keys=True) == json.dumps(b, sort_keys=True)",
+                             "json.dumps(b, sort_keys=True) == json.dumps(a, sort_keys=True)")
+        if txt_ not in (want_, alt_, want_.replace("(TypeError, ValueError)", "(ValueError, TypeError)")):
+            raise TranslatorError("_same_metadata has an unexpected shape:\n" + txt_)
+
     def one_guard(c_node):
         c = ast.unparse(c_node)
         if c == _norm_expr("metadata.token_pointer not in pseudonym.tree.elements"):
@@ -416,10 +442,12 @@ def translate(path=None) -> str:
             i1 = find_slot(a_, K + "[{i}] is not None")
             comp = "{{k: v for k, v in " + TRANSACTION + ".items() if k not in {lst}}}"
             strict_t = "json.dumps(" + comp + ", sort_keys=True) != json.dumps(" + K + "[{i}], sort_keys=True)"
+            helper_t = "not self._same_metadata(" + comp + ", " + K + "[{i}])"
+            helper_r = "not self._same_metadata(" + K + "[{i}], " + comp + ")"
             loose_t = comp + " != " + K + "[{i}]"
             found = None
             cand = re.sub(r"\bv\d+\b", "V", b_)
-            for kind, tmpl in (("strict", strict_t), ("loose", loose_t)):
+            for kind, tmpl in (("strict", strict_t), ("helper", helper_t), ("helper", helper_r), ("loose", loose_t)):
                 for lst in ("['name', 'date', 'schema']", "('name', 'date', 'schema')", "{'name', 'date', 'schema'}"):
                     for i in range(8):
                         if cand == re.sub(r"\b[kv]\b", "V", _norm_expr(tmpl.format(lst=lst, i=i))):
@@ -427,6 +455,8 @@ def translate(path=None) -> str:
             if i1 is not None and found is not None:
                 slot(i1, "md", "fixed-metadata")
                 slot(found[1], "md", "fixed-metadata")
+                if found[0] == "helper":
+                    check_same_metadata()
                 if found[0] == "loose":
                     raise TranslatorError("should_sign: the fixed-metadata guard compares with Python `!=`, under which "
                                           "True == 1 == 1.0: metadata {\"a\": true} passes a registration fixing {\"a\": 1}")
